@@ -252,7 +252,9 @@ func (c *fn) returnStmt(s *ast.ReturnStmt) string {
 			continue
 		}
 		if len(s.Results) == 1 {
-			c.checkTupleRepr(s, call, func(j int) types.Type { return res.At(j).Type() })
+			if cv := c.checkTupleRepr(s, call, func(j int) types.Type { return res.At(j).Type() }); cv != nil {
+				c.fail(s, "return of a call that changes the world / an in-out argument with an interface conversion of a result")
+			}
 			var tmps []ast.Expr
 			var names []string
 			for j := 0; j < fi.nres; j++ {
@@ -271,7 +273,22 @@ func (c *fn) returnStmt(s *ast.ReturnStmt) string {
 	}
 	if len(s.Results) == 1 && res.Len() > 1 {
 		// return f(): the tuple of a call
-		c.checkTupleRepr(s, s.Results[0], func(i int) types.Type { return res.At(i).Type() })
+		if convs := c.checkTupleRepr(s, s.Results[0], func(i int) types.Type { return res.At(i).Type() }); convs != nil {
+			e := c.expr(s.Results[0])
+			return c.bind(e, "t", func(tv string) string {
+				var pats, vals []string
+				for i := range convs {
+					t := c.fresh("t")
+					pats = append(pats, t)
+					if convs[i] != nil {
+						vals = append(vals, convs[i](t))
+					} else {
+						vals = append(vals, t)
+					}
+				}
+				return "let '(" + strings.Join(pats, ", ") + ") := " + tv + " in " + c.finish(s, vals)
+			})
+		}
 		e := c.expr(s.Results[0])
 		if len(c.inout) > 0 {
 			c.fail(s, "return of a multi-valued call in a function with mutated map parameters")
@@ -1163,8 +1180,9 @@ func (c *fn) inoutCall(n ast.Node, call *ast.CallExpr, fi *fnInfo, recv ast.Expr
 	if lhs != nil && len(lhs) != fi.nres {
 		c.fail(n, "%d variables for the %d results of %s", len(lhs), fi.nres, fi.label)
 	}
+	var convs []func(string) string
 	if lhs != nil {
-		c.checkTupleRepr(n, call, func(i int) types.Type {
+		convs = c.checkTupleRepr(n, call, func(i int) types.Type {
 			if i < len(lhs) && lhs[i] != nil {
 				return c.lhsType(lhs[i])
 			}
@@ -1190,7 +1208,31 @@ func (c *fn) inoutCall(n ast.Node, call *ast.CallExpr, fi *fnInfo, recv ast.Expr
 			all = append(all, nil)
 		}
 	}
-	return c.bind(c.call(call), "t", func(tv string) string { return c.destructure(tv, all, nOwn, k) })
+	for _, tg := range targets {
+		if id, ok := unparen(tg).(*ast.Ident); ok {
+			if o := c.objOf(id); o != nil {
+				if _, linked := c.activeLink[o]; linked {
+					k = c.syncLink(o, k)
+				}
+			}
+		}
+	}
+	return c.bind(c.call(call), "t", func(tv string) string { return c.destructureConv(tv, all, nOwn, convs, k) })
+}
+
+// syncLink: after a write through the linked element o, its element of the owner's list is replaced.
+func (c *fn) syncLink(o types.Object, k kont) kont {
+	l := c.linkOf[o]
+	idx := c.activeLink[o]
+	return func() string {
+		elem := c.nameOf(o)
+		if c.asValue[o] {
+			elem = "(PNew " + elem + ")"
+		}
+		return c.store(l.lhs, func(old cx) cx {
+			return c.lift([]cx{old}, func(v []string) string { return "(list_set " + idx + " " + elem + " " + v[0] + ")" })
+		}, k)
+	}
 }
 
 // lhsType: the type of an lvalue (nil for the blank identifier).
@@ -1212,12 +1254,15 @@ func (c *fn) lhsType(l ast.Expr) types.Type {
 // implicitly there (a concrete value to an interface, an interface to a wider
 // one), and on the components of a tuple the translation does not insert the
 // conversion.
-func (c *fn) checkTupleRepr(n ast.Node, call ast.Expr, want func(i int) types.Type) {
+func (c *fn) checkTupleRepr(n ast.Node, call ast.Expr, want func(i int) types.Type) []func(string) string {
 	tup, ok := c.tyOf(unparen(call)).(*types.Tuple)
 	if !ok {
-		return
+		return nil
 	}
+	var convs []func(string) string
+	any := false
 	for i := 0; i < tup.Len(); i++ {
+		convs = append(convs, nil)
 		wt := want(i)
 		if wt == nil {
 			continue
@@ -1230,10 +1275,57 @@ func (c *fn) checkTupleRepr(n ast.Node, call ast.Expr, want func(i int) types.Ty
 			continue
 		}
 		if c.g.typ(from, c.sub) != c.g.typ(wt, c.sub) {
+			if c.g.isOpaqueIface(from, c.sub) && c.g.isOpaqueIface(wt, c.sub) {
+				// an interface value used as a wider / other opaque interface: the same dynamic value
+				from, wt := from, wt
+				convs[i] = func(v string) string { return c.g.ifaceConv(v, from, wt, c.sub, false) }
+				convs[i]("x") // refuse now what cannot be converted
+				any = true
+				continue
+			}
 			c.fail(n, "result %d of the call has type %s and is used as %s: the implicit conversion of a component of a multi-valued call is not supported",
 				i+1, types.TypeString(from, nil), types.TypeString(wt, nil))
 		}
 	}
+	if !any {
+		return nil
+	}
+	return convs
+}
+
+// destructureConv is destructure with conversions applied to some components.
+func (c *fn) destructureConv(tv string, lhs []ast.Expr, nOwn int, convs []func(string) string, k kont) string {
+	if convs == nil {
+		return c.destructure(tv, lhs, nOwn, k)
+	}
+	lhs2 := append([]ast.Expr{}, lhs...)
+	type pend struct {
+		lhs ast.Expr
+		val string
+	}
+	var later []pend
+	for i := nOwn; i < len(lhs); i++ {
+		j := i - nOwn
+		if j < len(convs) && convs[j] != nil && lhs[i] != nil {
+			if id, ok := unparen(lhs[i]).(*ast.Ident); ok && id.Name == "_" {
+				continue
+			}
+			id := &ast.Ident{Name: "t"}
+			c.synthIdent[id] = c.fresh("t")
+			lhs2[i] = id
+			later = append(later, pend{lhs[i], convs[j](c.synthIdent[id])})
+		}
+	}
+	return c.destructure(tv, lhs2, nOwn, func() string {
+		var rec func(i int) string
+		rec = func(i int) string {
+			if i == len(later) {
+				return k()
+			}
+			return c.store(later[i].lhs, func(cx) cx { return cx{s: later[i].val} }, func() string { return rec(i + 1) })
+		}
+		return rec(0)
+	})
 }
 
 // destructure binds the components of a tuple-valued term to lvalues (nil = discarded).
@@ -1309,6 +1401,24 @@ func (c *fn) destructure(tv string, lhs []ast.Expr, nOwn int, k kont) string {
 // ---------- assignments ----------
 
 func (c *fn) assignStmt(s *ast.AssignStmt, k kont) string {
+	if l := c.linkAt[s]; l != nil && !c.linkBusy[s] {
+		// X.F = append(X.F, p) with p written through later: remember where p sits
+		idx := c.fresh("n")
+		c.regLocal(idx, "Z")
+		return c.bind(c.expr(l.lhs), "l", func(lv string) string {
+			if c.activeLink == nil {
+				c.activeLink, c.linkBusy = map[types.Object]string{}, map[*ast.AssignStmt]bool{}
+			}
+			c.linkBusy[s] = true
+			defer delete(c.linkBusy, s)
+			k2 := func() string {
+				c.activeLink[l.elem] = idx
+				defer delete(c.activeLink, l.elem)
+				return k()
+			}
+			return "let " + idx + " := (list_len " + lv + ") in " + c.assignStmt(s, k2)
+		})
+	}
 	switch s.Tok {
 	case token.DEFINE, token.ASSIGN:
 	default:
@@ -1387,9 +1497,10 @@ func (c *fn) assignStmt(s *ast.AssignStmt, k kont) string {
 	// a, b := f()   /   v, ok := m[k]
 	rhs := unparen(s.Rhs[0])
 	var tuple cx
+	var convs []func(string) string
 	switch r := rhs.(type) {
 	case *ast.CallExpr:
-		c.checkTupleRepr(s, r, func(i int) types.Type {
+		convs = c.checkTupleRepr(s, r, func(i int) types.Type {
 			if i < len(s.Lhs) {
 				return c.lhsType(s.Lhs[i])
 			}
@@ -1430,7 +1541,7 @@ func (c *fn) assignStmt(s *ast.AssignStmt, k kont) string {
 	default:
 		c.fail(s, "multi-valued right-hand side %T is not supported", rhs)
 	}
-	return c.bind(tuple, "t", func(tv string) string { return c.destructure(tv, s.Lhs, 0, k) })
+	return c.bind(tuple, "t", func(tv string) string { return c.destructureConv(tv, s.Lhs, 0, convs, k) })
 }
 
 func (c *fn) rhsFor(lhs, rhs ast.Expr) cx {
@@ -1464,6 +1575,15 @@ func (c *fn) update(lhs ast.Expr, f func(old cx) cx, k kont) string {
 // or an element of a locally created map.
 func (c *fn) store(lhs ast.Expr, f func(old cx) cx, k kont) string {
 	lhs = unparen(lhs)
+	if _, plain := lhs.(*ast.Ident); !plain && len(c.activeLink) > 0 {
+		if id := c.rootIdent(lhs); id != nil {
+			if o := c.objOf(id); o != nil {
+				if _, linked := c.activeLink[o]; linked {
+					k = c.syncLink(o, k)
+				}
+			}
+		}
+	}
 	switch l := lhs.(type) {
 	case *ast.Ident:
 		if l.Name == "_" {
